@@ -569,7 +569,22 @@ def run(ctx):
         txt = astq.text(bs[-1].value) if bs else ""
         ok = "errno.EAGAIN" in txt and "errno.EWOULDBLOCK" in txt
     ctx.ob(R7, CP, "_blocking_errnos contains EAGAIN and EWOULDBLOCK", ok)
-    calls_ = [c for c in astq.calls(mr.node) if astq.call_text(c) == "self._raise_timeout"]
-    ctx.ob(R7, mr.qual, "getresponse() errors are passed to _raise_timeout with the read timeout",
-           any(astq.kwarg(c, "timeout_value") is not None and any(isinstance(x, ast.Attribute) and x.attr == "read_timeout" for x in astq.sources_of(mr.node, astq.kwarg(c, "timeout_value")))
-               or any(isinstance(x, ast.Call) for x in astq.sources_of(mr.node, astq.kwarg(c, "timeout_value")) if astq.kwarg(c, "timeout_value") is not None) for c in calls_))
+    from ..rows import helper_closure as _hc19
+    rt_params = [p_ for p_ in rt_.params()]
+    okr = False
+    for q_ in sorted(_hc19(m, [mr], stop=("_raise_timeout", "urlopen"))):
+        fn_ = m.funcs.get(q_)
+        if fn_ is None:
+            continue
+        for c in astq.calls(fn_.node):
+            if astq.call_text(c) != "self._raise_timeout":
+                continue
+            # the argument bound to `timeout_value`, by keyword or by position
+            tv_ = astq.kwarg(c, "timeout_value")
+            if tv_ is None and "timeout_value" in rt_params and rt_params.index("timeout_value") < len(c.args):
+                tv_ = c.args[rt_params.index("timeout_value")]
+            if tv_ is None:
+                continue
+            src = list(astq.sources_of(fn_.node, tv_))
+            okr = okr or any(isinstance(x, ast.Attribute) and x.attr == "read_timeout" for x in src) or any(isinstance(x, ast.Call) for x in src)
+    ctx.ob(R7, mr.qual, "getresponse() errors are passed to _raise_timeout with the read timeout", okr)
